@@ -82,6 +82,17 @@ func c39Exec(r *sgRun, ps *sgPeerState, rec *sgRec, op sgOp, i int) {
 		}
 	} else if m&c39SameCerts != 0 {
 		nc.Certificates = before.Certificates
+		if len(before.Certificates) > 1 {
+			// with several certificates: a strict prefix, a reordering — both are changes
+			switch (m >> 13) & 3 {
+			case 1:
+				nc.Certificates = before.Certificates[:1]
+				mustReject = "certificates"
+			case 2:
+				nc.Certificates = []Certificate{before.Certificates[1], before.Certificates[0]}
+				mustReject = "certificates"
+			}
+		}
 	}
 	if m&c39Bundle != 0 {
 		nc.BundlePolicy = BundlePolicy(1 + (int(before.BundlePolicy))%3)
@@ -172,11 +183,14 @@ func sgGenPeerCfg(r *vfRand, prop string) sgPeerCfg {
 		c.Codecs = r.Intn(4)
 	case "C12":
 		c.AlwaysDC = r.Bool(0.25)
-		c.Codecs = vfPick(r, []int{0, 0, 1, 2})
+		c.Codecs = vfPick(r, []int{0, 0, 1, 2, 4, 4})
 	case "C39":
 		c.Bundle = r.Intn(4)
 		c.RTCPMux = r.Intn(3)
 		c.PoolSize = r.Intn(2)
+		c.TwoCerts = r.Bool(0.4)
+	case "C07":
+		c.HandlerAns = r.Bool(0.3)
 	default:
 		c.MediaFP = r.Bool(0.2)
 		c.AlwaysDC = r.Bool(0.15)
@@ -208,7 +222,7 @@ func sgGenMedia(r *vfRand, p int) sgOp {
 	case x < 18:
 		return sgOp{Kind: "replacetrack", Peer: p, A: r.Intn(8), B: r.Intn(2)}
 	default:
-		return sgOp{Kind: "codecprefs", Peer: p, A: r.Intn(8)}
+		return sgOp{Kind: "codecprefs", Peer: p, A: r.Intn(8), B: r.Intn(4)}
 	}
 }
 
@@ -279,6 +293,12 @@ func sgGenFor(prop string) func(seed uint64, idx, total int, tier string) any {
 					}
 				case x < 15 && prop == "C03":
 					ops = append(ops, sgOp{Kind: "deliver", Peer: p, A: r.Intn(3), S: vfPick(r, sgTamperClasses)})
+				case x < 17 && prop != "C02":
+					// an offerer receiving provisional answers, then more of them / the final answer
+					ops = append(ops, sgOp{Kind: "createdc", Peer: p}, sgOp{Kind: "offer", Peer: p}, sgOp{Kind: "setlocal", Peer: p, A: -1}, sgOp{Kind: "foreign-answer", Peer: p, A: r.Intn(8), B: 1})
+					for k := r.Range(1, 2); k > 0; k-- {
+						ops = append(ops, sgOp{Kind: "foreign-answer", Peer: p, A: r.Intn(8), B: r.Intn(2)})
+					}
 				default:
 					ops = append(ops, anyDesc(p))
 				}
@@ -287,7 +307,9 @@ func sgGenFor(prop string) func(seed uint64, idx, total int, tier string) any {
 			n := r.Range(3, 10)
 			for len(ops) < n {
 				p := r.Intn(2)
-				switch x := r.Intn(10); {
+				switch x := r.Intn(11); {
+				case x == 10: // an offer that is created but not applied (yet)
+					ops = append(ops, sgOp{Kind: "offer", Peer: p})
 				case x < 5:
 					ops = append(ops, sgGenMedia(r, p))
 				case x < 8:
@@ -305,7 +327,7 @@ func sgGenFor(prop string) func(seed uint64, idx, total int, tier string) any {
 				switch x := r.Intn(10); {
 				case x < 6:
 					m := 0
-					for b := 0; b < 13; b++ {
+					for b := 0; b < 15; b++ {
 						if r.Bool(0.18) {
 							m |= 1 << b
 						}
@@ -324,6 +346,40 @@ func sgGenFor(prop string) func(seed uint64, idx, total int, tier string) any {
 			if r.Bool(0.7) {
 				ops = append(ops, sgGenMedia(r, 0))
 			}
+			if (prop == "C08" || prop == "C16" || prop == "C10") && r.Bool(0.35) {
+				// a foreign session in which the local side starts sending on sections the remote created,
+				// then the remote re-offers with other directions / codec subsets
+				p := r.Intn(2)
+				if r.Bool(0.5) {
+					ops = append(ops, sgOp{Kind: "addtransceiver", Peer: p, A: r.Intn(2), B: 2}, sgOp{Kind: "codecprefs", Peer: p, A: r.Intn(4), B: r.Intn(4)})
+				}
+				ops = append(ops, sgOp{Kind: "foreign-offer", Peer: p, A: r.Intn(8)}, sgOp{Kind: "addtrack", Peer: p, A: r.Intn(2)}, sgOp{Kind: "addtrack", Peer: p, A: r.Intn(2)},
+					sgOp{Kind: "answer", Peer: p}, sgOp{Kind: "setlocal", Peer: p, A: -1},
+					sgOp{Kind: "foreign-offer", Peer: p, A: r.Intn(8)}, sgOp{Kind: "answer", Peer: p}, sgOp{Kind: "setlocal", Peer: p, A: -1})
+			}
+			if (prop == "C10" || prop == "C12") && r.Bool(0.3) {
+				// preferences over every codec, an answer that narrows them, then a renegotiation offer
+				p := r.Intn(2)
+				ops = append(ops, sgOp{Kind: "addtransceivertrack", Peer: p, A: 1}, sgOp{Kind: "codecprefs", Peer: p, A: 0, B: 2},
+					sgOp{Kind: "offer", Peer: p}, sgOp{Kind: "setlocal", Peer: p, A: -1}, sgOp{Kind: "foreign-answer", Peer: p, A: r.Intn(8)},
+					sgGenMedia(r, p), sgOp{Kind: "offer", Peer: p})
+			}
+			if (prop == "C06" || prop == "C09") && r.Bool(0.35) {
+				p := r.Intn(2)
+				if r.Bool(0.5) {
+					// answer a foreign offer with unusual mids, then add a data channel / transceiver and offer
+					ops = append(ops, sgOp{Kind: "foreign-offer", Peer: p, A: r.Intn(8)}, sgOp{Kind: "answer", Peer: p}, sgOp{Kind: "setlocal", Peer: p, A: -1},
+						sgOp{Kind: "createdc", Peer: p}, sgOp{Kind: "offer", Peer: p}, sgOp{Kind: "addtransceiver", Peer: p, A: r.Intn(2), B: r.Intn(4)}, sgOp{Kind: "offer", Peer: p})
+				} else {
+					// offer media + data, the foreign answer may reject sections (incl. the application one), then grow
+					ops = append(ops, sgOp{Kind: "createdc", Peer: p}, sgOp{Kind: "addtrack", Peer: p, A: r.Intn(2)}, sgOp{Kind: "offer", Peer: p}, sgOp{Kind: "setlocal", Peer: p, A: -1},
+						sgOp{Kind: "foreign-answer", Peer: p, A: vfPick(r, []int{4, 9, 3, r.Intn(20)})}, sgOp{Kind: "addtransceiver", Peer: p, A: r.Intn(2), B: r.Intn(4)}, sgOp{Kind: "offer", Peer: p})
+				}
+			}
+			if prop == "C12" && r.Bool(0.3) {
+				p := r.Intn(2)
+				ops = append(ops, sgOp{Kind: "addtrack", Peer: p, A: r.Intn(2)}, sgOp{Kind: "replacetrack", Peer: p, A: 0, B: 1}, sgOp{Kind: "replacetrack", Peer: p, A: 0, B: 0}, sgOp{Kind: "offer", Peer: p})
+			}
 			for len(ops) < n {
 				p := r.Intn(2)
 				switch x := r.Intn(20); {
@@ -334,9 +390,13 @@ func sgGenFor(prop string) func(seed uint64, idx, total int, tier string) any {
 				case x < 16:
 					flavor := ""
 					if prop == "C07" || prop == "C06" || prop == "C09" {
-						flavor = vfPick(r, []string{"", "", "text", "nodir"})
+						flavor = vfPick(r, []string{"", "", "text", "nodir", "twoapp"})
 					}
-					ops = append(ops, sgOp{Kind: "foreign-offer", Peer: p, A: r.Intn(5), S: flavor}, sgOp{Kind: "answer", Peer: p}, sgOp{Kind: "setlocal", Peer: p, A: -1})
+					ops = append(ops, sgOp{Kind: "foreign-offer", Peer: p, A: r.Intn(8), S: flavor})
+					if r.Bool(0.35) { // the application reacts to the offer before answering
+						ops = append(ops, sgGenMedia(r, p))
+					}
+					ops = append(ops, sgOp{Kind: "answer", Peer: p}, sgOp{Kind: "setlocal", Peer: p, A: -1})
 				case x < 18:
 					ops = append(ops, sgOp{Kind: "offer", Peer: p}, sgOp{Kind: "setlocal", Peer: p, A: -1}, sgOp{Kind: "foreign-answer", Peer: p, A: r.Intn(8)})
 				default:
